@@ -69,12 +69,15 @@ func checkC09(p *Prog, r *Report) {
 	p.hardlinkMarkerRule(r, "E9.hardlink-marker-protocol")
 	p.memoEveryHashRule(r, "E5.every-hash-memoised")
 	// the walk callback
+	// (the directory branch may live in a private helper of hash: dirHash(h, path))
 	var cb *ssa.Function
-	for _, ci := range callsInFn(hash, walkMode) {
-		cc := callCommon(ci)
-		for _, a := range cc.Args {
-			if mc, ok := a.(*ssa.MakeClosure); ok {
-				cb = mc.Fn.(*ssa.Function)
+	for _, g := range withAnon(hash) {
+		for _, ci := range callsInFn(g, walkMode) {
+			cc := callCommon(ci)
+			for _, a := range cc.Args {
+				if f := closureOfArg(a); f != nil {
+					cb = f
+				}
 			}
 		}
 	}
@@ -82,8 +85,8 @@ func checkC09(p *Prog, r *Report) {
 		r.unresolved("E3.dir-entry", "closure passed to WalkMode in PathHasher.hash")
 		return
 	}
-	pathPrm := cb.Params[0]
-	modePrm := cb.Params[1]
+	pathPrm := cb.Params[len(cb.Params)-2] // (a method used as the callback has its receiver first)
+	modePrm := cb.Params[len(cb.Params)-1]
 	// writes to the hash in the callback
 	type hw struct {
 		i   ssa.Instruction
@@ -242,13 +245,27 @@ func checkC09(p *Prog, r *Report) {
 	}
 	// (6) top-level symlink
 	rule = "E3.symlink-target"
+	hashTop := hash
 	{
+		// (the symlink branch may live in a private helper of hash: symlinkHash(h, path))
 		var rl *ssa.Call
-		eachInstr(hash, false, func(_ *ssa.Function, i ssa.Instruction) {
-			if c, ok := i.(*ssa.Call); ok && isCallTo(c, "os.Readlink") {
-				rl = c
+		inCb := map[*ssa.Function]bool{}
+		for _, g := range withAnon(cb) {
+			inCb[g] = true
+		}
+		for _, g := range withAnon(hash) {
+			if inCb[g] {
+				continue
 			}
-		})
+			eachInstr(g, false, func(_ *ssa.Function, i ssa.Instruction) {
+				if c, ok := i.(*ssa.Call); ok && isCallTo(c, "os.Readlink") {
+					rl = c
+				}
+			})
+		}
+		if rl != nil {
+			hash = rl.Parent()
+		}
 		if rl == nil {
 			r.bad(rule, "top-level symlink reads its target", p.pos(hash.Pos()), fnName(hash), "PathHasher.hash never reads the link target of a top-level symlink")
 		} else {
@@ -308,6 +325,7 @@ func checkC09(p *Prog, r *Report) {
 			r.check(written && lossy == "", rule, "link destination written without a lossy transform", p.pos(rl.Pos()), fnName(hash), "the (relativised) Readlink result is written as is", map[bool]string{true: "the link destination passes through " + lossy + " before being hashed: different targets (e.g. ../lib/tool, ./lib/tool, lib/tool) collapse to one hash", false: "the destination of a top-level symlink never reaches the hash"}[lossy != ""])
 		}
 	}
+	hash = hashTop
 	// (7) top-level kinds domain separated: each of the three branches must start with a distinct constant tag
 	rule = "E3.kind-domain-separation"
 	{
